@@ -32,12 +32,18 @@ def cps(s: str) -> List[int]:
 
 
 class RecIO:
-    """A text sink that records every write(chunk) call."""
+    """A text sink that records every write(chunk) call.  With `encoding` it
+    behaves like a text file opened with that encoding: a chunk that cannot be
+    encoded raises UnicodeEncodeError (as open(path, 'w') does under an ASCII
+    or cp1252 locale)."""
 
-    def __init__(self):
+    def __init__(self, encoding: Optional[str] = None):
         self.chunks: List[str] = []
+        self.encoding = encoding
 
     def write(self, s):
+        if self.encoding is not None and isinstance(s, str):
+            s.encode(self.encoding)
         self.chunks.append(s)
         return len(s) if isinstance(s, str) else 0
 
@@ -61,8 +67,10 @@ def rand_text(r, maxlen=12) -> str:
             out.append(r.choice('"\\/\b\f\n\r\t'))
         elif k < 0.7:
             out.append(chr(r.randrange(0, 32)))
-        elif k < 0.85:
+        elif k < 0.84:
             out.append(chr(r.randrange(0xA0, 0xD7FF)))
+        elif k < 0.85:
+            out.append(chr(r.randrange(0xD800, 0xE000)))      # a lone surrogate
         elif k < 0.93:
             out.append(chr(r.randrange(0xE000, 0xFFFF)))
         else:
@@ -378,7 +386,8 @@ def session(job) -> List[Dict[str, Any]]:
     from bridge_env.data_handler.json_handler.writer import (JsonBoardSettingWriter,
                                                              JsonLogWriter)
     r = rng('json', sd, tid)
-    sink = RecIO()
+    sink = RecIO([None, None, 'ascii', 'cp1252', 'utf-8'][r.randrange(5)] if ctx is None else None)
+    dup_ids = r.random() < 0.2        # several boards with the same id (two tables, a replay)
     wr = JsonLogWriter(sink) if kind == 'logs' else JsonBoardSettingWriter(sink)
     evs: List[Dict[str, Any]] = [{'tid': tid, 'ev': 'begin', 'kind': kind}]
     all_chunks: List[str] = []
@@ -419,8 +428,14 @@ def session(job) -> List[Dict[str, Any]]:
         kw, rec = gen(r)
         call('write', lambda: wr.write(**kw), rec)
     call('open', wr.open if ctx is None else wr.__enter__)
+    first_id = None
     for k in range(n):
         kw, rec = gen(r)
+        if dup_ids:
+            if first_id is None:
+                first_id = (kw['board_id'], rec['id'])
+            elif k % 2 == 0:
+                kw['board_id'], rec['id'] = first_id
         if with_fail and k == n // 2:
             bad = dict(kw)
             if kind == 'logs':
